@@ -596,12 +596,55 @@ def rule_width(chk, prog):
     # expanded) has the documented form under the facts that select the case
     from ..astutil import expand_locals
 
+    def digits_form(e):
+        """(a, b) with e == a * len(<param>.data) + b, or None"""
+        if isinstance(e, ast.Constant) and isinstance(
+                e.value, int) and not isinstance(e.value, bool):
+            return (0, e.value)
+        if isinstance(e, ast.Call) and call_name(e) == 'len' and len(
+                e.args) == 1:
+            a = e.args[0]
+            if unparse(a) == f'{param}.data':
+                return (1, 0)
+            if isinstance(a, ast.Subscript) and unparse(
+                    a.value) == f'{param}.data' and isinstance(
+                        a.slice, ast.Slice) and a.slice.upper is None and \
+                    a.slice.step is None and isinstance(
+                        a.slice.lower, ast.Constant) and isinstance(
+                            a.slice.lower.value, int) and \
+                    a.slice.lower.value >= 0:
+                return (1, -a.slice.lower.value)
+            return None
+        if isinstance(e, ast.BinOp):
+            l_, r_ = digits_form(e.left), digits_form(e.right)
+            if l_ is None or r_ is None:
+                return None
+            if isinstance(e.op, ast.Add):
+                return (l_[0] + r_[0], l_[1] + r_[1])
+            if isinstance(e.op, ast.Sub):
+                return (l_[0] - r_[0], l_[1] - r_[1])
+            if isinstance(e.op, ast.Mult):
+                if l_[0] == 0:
+                    return (l_[1] * r_[0], l_[1] * r_[1])
+                if r_[0] == 0:
+                    return (l_[0] * r_[1], l_[1] * r_[1])
+            if isinstance(e.op, ast.LShift) and r_[0] == 0 and r_[1] >= 0:
+                return (l_[0] << r_[1], l_[1] << r_[1])
+        return None
+
+    LINEAR = {f'len({param}.data[2:])': (1, -2),
+              f'len({param}.data[2:])*4': (4, -8),
+              f'4*len({param}.data[2:])': (4, -8)}
+
     def has_return(value_forms, need):
+        want_lin = {LINEAR[v_] for v_ in value_forms if v_ in LINEAR}
         for r in walk_no_nested(f):
             if not (isinstance(r, ast.Return) and r.value is not None):
                 continue
-            v = unparse(expand_locals(f, r.value)).replace(' ', '')
-            if v not in value_forms:
+            ev = expand_locals(f, r.value)
+            v = unparse(ev).replace(' ', '')
+            if v not in value_forms and not (
+                    want_lin and digits_form(ev) in want_lin):
                 continue
             facts = facts_at(f, r)
             if all(any(pol == p_ and t_.replace(' ', '') == t.replace(
